@@ -224,3 +224,14 @@ def _canary_forwarder_clear_loses():
 CANARIES = [("Forwarder.read not ready when only write.run (no forwarding)", _canary_forwarder_read_without_forwarding),
             ("Pipe.write not ready on a full buffer although read runs", _canary_pipe_write_ignores_read),
             ("Forwarder: simultaneous write wins over clear", _canary_forwarder_clear_loses)]
+
+
+def _callers_items():
+    from transactron.lib import Forwarder, Pipe
+
+    return [("Forwarder(2 bits)", lambda: Forwarder([("d", 2)]), [("read", ["read"]), ("write", ["write"])], [("peek", ["peek"]), ("clear", ["clear"])]),
+            ("Pipe(2 bits)", lambda: Pipe([("d", 2)]), [("read", ["read"]), ("write", ["write"])], [("peek", ["peek"]), ("clear", ["clear"])])]
+
+
+from ..excl import install as _install  # noqa: E402
+_install(globals(), _callers_items())
